@@ -24,12 +24,12 @@ PROP = {
              "SlashWithInfractionReason or dogfood SlashWithInfractionReason (by consensus address, known or unknown), with power aimed at "
              "value/20, value/3, value, value+1, 2*value+1, 1, random; factor from {0, 1e-18, 1/3, 5%, 1, 0.999.., random, 1.5, 1+1e-18, negative, nil}; "
              "infraction height before/at/after the undelegations, in the current block, in the future; replayed identifiers (same and other "
-             "entry point); directed scenarios first (same-block undelegation regression, zero operator value, replay through each entry point); "
+             "entry point); directed scenarios first (same-block undelegation regression, zero-operator-value regression, replay through each entry point); "
              "distinct = distinct sha1 of the case; non-trivial = at least one call changed the dumped state"),
     "explanation": ("Theorems (Coq) about the executable model of CheckSlashParameter / SlashAssets / SlashFromUndelegation / Slash / "
                     "UpdateOperatorSlashInfo / SlashWithInfractionReason for ALL states, prices, heights and calls: the model's step satisfies the "
                     "boolean statement step_ok (C04_step_meets_statement, lifted to histories), 0<=p<=1, cap, floor rounding, failed calls change "
-                    "nothing, idempotence under any later history. The model is tied to the code by running both on the same generated ledgers "
+                    "nothing, no panic outcome, zero value is an error, idempotence under any later history. The model is tied to the code by running both on the same generated ledgers "
                     "(pools, undelegation records, delegation rows, staker lists, slash records compared after every call; every other key of every "
                     "store must be unchanged), and step_ok itself is evaluated on the implementation's before/after dumps."),
     "trusted_base": KERNEL_TB + [
@@ -49,7 +49,8 @@ PROP = {
         "the former known finding (infraction in the current block: undelegations started in it were skipped by `SlashEventHeight < BlockHeight`) is "
         "repaired by repo_patches/fix-c04-same-block-undelegation.patch (`<=`); the model has the repaired condition, the theorems carry no exclusion "
         "any more, and the directed scenario (tag regress-C04-same-block-undelegation) plus every random case with that configuration act as regression",
-        "operator value zero makes SlashAssets panic (LegacyDec.Quo by zero); the statement treats it as outside C04 (C11) and the monitor only accepts a "
-        "panic when the observed value is zero and nothing changed",
+        "operator value not positive: SlashAssets returns ErrValueIsNilOrZero before anything is written (repaired division by zero); the model returns an "
+        "error there (C04_zero_value_is_an_error, C04_never_panics) and the monitor accepts no panic at all; regression: directed scenario with tag "
+        "regress-C04-zero-value",
     ],
 }
